@@ -33,4 +33,29 @@ VH_OP(nn_avg_pool2d)
     });
 }
 
+// the same with ceil_mode given as a COMPILE-TIME constant (nm::True / nm::False); float data only
+//   nn_max_pool2d_ct / nn_avg_pool2d_ct f <array> <kh> <kw> <sh> <sw> <ceil>
+template <typename F>
+static void pool_ct(vh::Args& in, vh::Out& out, F&& f)
+{
+    if (in.s() != "f") { out.tok("ERR bad-dtype"); return; }
+    auto xo = vh::read_operand(in);
+    nmtools_array<int, 2> kernel{(int)in.i(), (int)in.i()};
+    nmtools_array<int, 2> stride{(int)in.i(), (int)in.i()};
+    int ceil_mode = (int)in.i();
+    auto x = vh::to_arr<float>(xo);
+    if (ceil_mode) f(x, kernel, stride, nm::True);
+    else f(x, kernel, stride, nm::False);
+}
+
+VH_OP(nn_max_pool2d_ct)
+{
+    pool_ct(in, out, [&](const auto& x, const auto& k, const auto& s, auto c) { vh::emit_la(out, view::max_pool2d(x, k, s, c)); });
+}
+
+VH_OP(nn_avg_pool2d_ct)
+{
+    pool_ct(in, out, [&](const auto& x, const auto& k, const auto& s, auto c) { vh::emit_la(out, view::avg_pool2d(x, k, s, c)); });
+}
+
 VH_MAIN()
